@@ -7,4 +7,6 @@ test -f /opt/veriftools/tla/tla2tools.jar
 /venv/bin/python -c "import libcst, mypy_extensions"
 /venv/bin/python -m harness.envgen > specs/MTEnv.tla
 mkdir -p evidence replays .cache
+# the binding self-test: hand-made traces with one corrupted field each must be rejected by the trace specs
+/venv/bin/python -m harness.selftest
 echo setup ok
